@@ -5,6 +5,7 @@
 #include <sys/stat.h>
 #include <time.h>
 #include <stdarg.h>
+#include <set>
 
 namespace exa {
 
@@ -464,6 +465,16 @@ static ares_ssize_t s_sendto(ares_socket_t fd, const void *buf, size_t len, int,
     return -1;
   }
   size_t n = len;
+  if (w->write_pos < w->write_plan.size()) {
+    int k = w->write_plan[w->write_pos++];
+    if (k <= 0) {
+      w->log(fmt("send(%d) -> EWOULDBLOCK (plan)", fd));
+      w->W("plan_wouldblock");
+      errno = EWOULDBLOCK;
+      return -1;
+    }
+    if ((size_t)k < n) n = (size_t)k;
+  }
   if (take_fault(w, FS_SEND_SHORT) && n > 1) n = n / 2;
   if (w->cfg->tcp_write_chunk > 0 && n > (size_t)w->cfg->tcp_write_chunk) n = (size_t)w->cfg->tcp_write_chunk;
   s->outstream.insert(s->outstream.end(), (const unsigned char *)buf, (const unsigned char *)buf + n);
@@ -619,6 +630,7 @@ bool World::init()
 {
   g_world = this;
   vf::ledger().reset();
+  vf::ledger().fail_at = fail_at;
   if (cfg->whole_second_clock) now_us = 1000000000000LL;
   vfs().clear();
   if (!cfg->hosts.empty()) vfs()["/vfs/hosts"] = cfg->hosts;
@@ -750,7 +762,13 @@ void World::teardown()
   if (!L.live.empty()) {
     size_t bytes = 0;
     for (auto &kv : L.live) bytes += kv.second;
-    violate("C01:leak:blocks-live-after-destroy", fmt("%zu blocks / %zu bytes still allocated after ares_destroy + ares_library_cleanup", L.live.size(), bytes));
+    std::set<std::string> sites;
+    if (L.trace)
+      for (auto &kv : L.live) sites.insert(vf::ledger_site(kv.first));
+    std::string sl;
+    for (auto &x : sites) sl += (sl.empty() ? "" : ",") + x;
+    leak_sites = sl;
+    violate("C01:leak:blocks-live-after-destroy", fmt("%zu blocks / %zu bytes still allocated after ares_destroy + ares_library_cleanup%s%s", L.live.size(), bytes, sl.empty() ? "" : "; allocated in ", sl.c_str()));
     for (auto &kv : L.live) free(kv.first);
     L.live.clear();
   }
